@@ -16,15 +16,32 @@ package fsm
 import (
 	"fmt"
 	"regexp"
-	"strconv"
 	"strings"
 )
 
 var (
-	// A reference is $name or ${name}; the name must not swallow a following `$`,
-	// otherwise adjacent references such as "$1$2" are read as one unknown name.
-	templateReplaceCaptureRE = regexp.MustCompile(`\$\{?([a-zA-Z0-9_]+)\}?`)
+	// Capture references follow the syntax of regexp.Expand, which expands the
+	// same templates for regex mappings: $name or ${name}, where name is the
+	// longest sequence of letters, digits and underscore, and $$ for a literal $.
+	templateReplaceCaptureRE = regexp.MustCompile(`\$\$|\$\{([\p{L}\p{Nd}_]+)\}|\$([\p{L}\p{Nd}_]+)`)
 )
+
+// captureNumber reads a reference name as a capture group number the way
+// regexp.Expand does: decimal digits without a leading zero. Any other name
+// would refer to a named group, which glob patterns do not have.
+func captureNumber(name string) int {
+	if name == "" || (name[0] == '0' && len(name) > 1) {
+		return -1
+	}
+	num := 0
+	for i := 0; i < len(name); i++ {
+		if name[i] < '0' || '9' < name[i] || num >= 1e8 {
+			return -1
+		}
+		num = num*10 + int(name[i]) - '0'
+	}
+	return num
+}
 
 type TemplateFormatter struct {
 	captureIndexes []int
@@ -49,9 +66,11 @@ func NewTemplateFormatter(template string, captureCount int) *TemplateFormatter 
 	// that start with it ($1 inside $11).
 	escaped := strings.ReplaceAll(template, "%", "%%")
 	valueFormatter := templateReplaceCaptureRE.ReplaceAllStringFunc(escaped, func(ref string) string {
-		match := templateReplaceCaptureRE.FindStringSubmatch(ref)
-		idx, err := strconv.Atoi(match[len(match)-1])
-		if err != nil || idx > captureCount || idx < 1 {
+		if ref == "$$" {
+			return "$"
+		}
+		idx := captureNumber(strings.Trim(ref[1:], "{}"))
+		if idx > captureCount || idx < 1 {
 			// if index larger than captured count or using unsupported named capture group,
 			// replace with empty string
 			return ""
